@@ -35,7 +35,7 @@ def jobs(tier):
     for sh in b["shapes"]:
         for leaf in b["leaves"]:
             out.append({"name": "%s/%s" % (sh, leaf), "shape": sh, "leaf": leaf, "depth": b["depth"], "tier": tier})
-    for sh in ("nested+late", "cfglist+late"):
+    for sh in ("nested+late", "cfglist+late", "nested+off"):
         for leaf in ["int09", "str-norm", "list-int", "dict-typed", "bool"] + ["int-cd", "list-int-cd"]:
             out.append({"name": "%s/%s" % (sh, leaf), "shape": sh, "leaf": leaf, "depth": b["depth"], "tier": tier})
     for sh in ("nested+env", "cfglist+env"):
